@@ -35,6 +35,9 @@ func printerSignature(p *Prog, f *ssa.Function, full bool) (map[string]bool, boo
 				continue
 			}
 			name := e.Callee[strings.LastIndex(e.Callee, ".")+1:]
+			if name == "Indent" {
+				continue // layout only
+			}
 			var ops []string
 			for i, a := range e.Args {
 				if i == 0 {
